@@ -5,6 +5,10 @@ import "fmt"
 // checkC16: ConnState, Err() and Done() tell the truth, per BaseClient.
 func checkC16(ix *index, add addFn) {
 	sc := ix.sc
+	if sc.Family == "race" {
+		checkC16Race(ix, add)
+		return
+	}
 	conns := ix.connInfos()
 	// which connection was current when Disconnect was invoked
 	discConn := -1
@@ -212,4 +216,79 @@ func closeIsDisconnect(ix *index, k, disc, end int) bool {
 		}
 	}
 	return false
+}
+
+// checkC16Race: engine R pass. Endings race under real parallelism, so nothing
+// is demanded about the order of records; only what each callback said, how
+// often, and what Err() / Done() say in the end.
+func checkC16Race(ix *index, add addFn) {
+	type cs struct {
+		active, closed, disc int
+		closedErr            string
+		closedNil, discNil   bool
+		staleCB              string // a callback whose error differed from Err() at that moment
+		final                *Rec
+		discCalled           bool
+	}
+	per := map[int]*cs{}
+	get := func(k int) *cs {
+		if per[k] == nil {
+			per[k] = &cs{}
+		}
+		return per[k]
+	}
+	for k, op := range ix.sc.Ops {
+		if op.Kind == "disconnect" && ix.ops[k].inv >= 0 {
+			get(op.Cli + 1).discCalled = true
+		}
+	}
+	for i := range ix.tr {
+		r := &ix.tr[i]
+		switch r.Kind {
+		case "state":
+			c := get(r.Conn)
+			switch r.S {
+			case "Active":
+				c.active++
+			case "Closed":
+				c.closed++
+				c.closedErr = r.Err
+				c.closedNil = r.Err == ""
+			case "Disconnected":
+				c.disc++
+				c.discNil = r.Err == ""
+			}
+			if !r.B && (r.S == "Closed" || r.S == "Disconnected") {
+				c.staleCB = fmt.Sprintf("%s(%q)", r.S, r.Err)
+			}
+		case "finalerr":
+			get(r.Conn).final = r
+		}
+	}
+	for k, c := range per {
+		if c.active > 1 || c.closed > 1 || c.disc > 1 {
+			add("once", fmt.Sprintf("conn %d: Active x%d, Closed x%d, Disconnected x%d", k, c.active, c.closed, c.disc), nil)
+		}
+		if c.closed > 0 && c.closedNil {
+			add("closed", fmt.Sprintf("conn %d: Closed reported with a nil error", k), nil)
+		}
+		if c.disc > 0 && !c.discCalled {
+			add("disconnected", fmt.Sprintf("conn %d: Disconnected reported although Disconnect was never called on it", k), nil)
+		}
+		if c.staleCB != "" {
+			add("err-consistent", fmt.Sprintf("conn %d: the state callback reported %s while Err() said something else at that moment", k, c.staleCB), nil)
+		}
+		if c.final == nil {
+			continue
+		}
+		if c.closed > 0 && !c.closedNil && c.final.Err != c.closedErr {
+			add("err-consistent", fmt.Sprintf("conn %d: Closed reported with %q, Err() is %q in the end", k, c.closedErr, c.final.Err), nil)
+		}
+		if c.disc > 0 && c.discNil && c.closed == 0 && c.final.Err != "" {
+			add("err-nil", fmt.Sprintf("conn %d: Disconnected(nil) was reported, Closed never, and Err() is %q in the end", k, c.final.Err), nil)
+		}
+		if (c.closed > 0 || c.disc > 0) && ix.complete && !c.final.B && c.active > 0 {
+			add("done", fmt.Sprintf("conn %d: the connection has ended (Closed x%d, Disconnected x%d) but Done() is not closed when the run is judged", k, c.closed, c.disc), nil)
+		}
+	}
 }
